@@ -1,13 +1,13 @@
 package main
 
 import (
-	"bytes"
 	"context"
 	"encoding/binary"
 	"errors"
 	"fmt"
 	"github.com/gogo/protobuf/proto"
 	"github.com/ipfs/go-unixfsnode/iter"
+	"google.golang.org/protobuf/encoding/protowire"
 	"math/bits"
 	"os"
 	"sort"
@@ -75,6 +75,7 @@ type DirCase struct {
 	NotFound bool      `json:"notfound"`
 	Mode     string    `json:"mode"`
 	Script   [][]any   `json:"script"`
+	MixV0    bool      `json:"mixv0"` // entries with odd ids point at a CIDv0 (34-byte) target instead of a CIDv1 (36-byte) one
 }
 
 const nTargets = 4
@@ -91,10 +92,21 @@ func putTargets(st *Store) []cid.Cid {
 	return out
 }
 
+// v0Target stores an empty dag-pb node and returns its CIDv0 (a 34-byte link).
+func v0Target(st *Store) cid.Cid {
+	mh, _ := multihash.Sum([]byte{}, multihash.SHA2_256, -1)
+	c := cid.NewCidV0(mh)
+	st.Put(c, []byte{})
+	return c
+}
+
 func entryLinks(dc *DirCase, targets []cid.Cid, st *Store) ([]dagpb.PBLink, error) {
 	var out []dagpb.PBLink
 	for i, id := range dc.Entries {
 		t := targets[dc.Links[i]%nTargets]
+		if dc.MixV0 && id%2 == 1 {
+			t = v0Target(st)
+		}
 		b, _ := st.Get(t)
 		l, err := builder.BuildUnixFSDirectoryEntry(dc.Universe[id-1], int64(len(b)), cidlink.Link{Cid: t})
 		if err != nil {
@@ -140,6 +152,9 @@ func buildDir(st *Store, dc *DirCase, targets []cid.Cid) (cid.Cid, uint64, error
 			m := map[string]quickbuilder.Node{}
 			for i, id := range dc.Entries {
 				t := targets[dc.Links[i]%nTargets]
+				if dc.MixV0 && id%2 == 1 {
+					t = v0Target(st)
+				}
 				bb, _ := st.Get(t)
 				m[dc.Universe[id-1]] = quickNode{cidlink.Link{Cid: t}, int64(len(bb))}
 			}
@@ -715,39 +730,22 @@ func nativeIteratorOf(n ipld.Node) nativeIter {
 // (names absent, empty, duplicated, any order); RawType 1 gives it UnixFS
 // Directory data (encoded with the reference gogo message), -1 no Data.
 func buildRawDir(st *Store, dc *DirCase, targets []cid.Cid) (cid.Cid, uint64, error) {
-	nb := dagpb.Type.PBNode.NewBuilder()
-	ma, err := nb.BeginMap(2)
-	if err != nil {
-		return cid.Undef, 0, err
-	}
-	la, err := ma.AssembleEntry("Links")
-	if err != nil {
-		return cid.Undef, 0, err
-	}
-	ll, err := la.BeginList(int64(len(dc.Raw)))
-	if err != nil {
-		return cid.Undef, 0, err
-	}
+	// Encoded by hand with protowire: go-codec-dagpb's encoder would sort the
+	// links by name, but its decoder (and any other writer) accepts any order,
+	// and "any order" is what C15 quantifies over.
+	var out []byte
 	for _, rl := range dc.Raw {
-		lb := dagpb.Type.PBLink.NewBuilder()
-		lm, _ := lb.BeginMap(3)
-		lm.AssembleKey().AssignString("Hash")
-		lm.AssembleValue().AssignLink(cidlink.Link{Cid: targets[rl.Link%nTargets]})
+		var lb []byte
+		lb = protowire.AppendTag(lb, 1, protowire.BytesType)
+		lb = protowire.AppendBytes(lb, targets[rl.Link%nTargets].Bytes())
 		if !rl.Absent {
-			lm.AssembleKey().AssignString("Name")
-			lm.AssembleValue().AssignString(rl.Name)
+			lb = protowire.AppendTag(lb, 2, protowire.BytesType)
+			lb = protowire.AppendBytes(lb, []byte(rl.Name))
 		}
-		lm.AssembleKey().AssignString("Tsize")
-		lm.AssembleValue().AssignInt(7)
-		if err := lm.Finish(); err != nil {
-			return cid.Undef, 0, err
-		}
-		if err := ll.AssembleValue().AssignNode(lb.Build()); err != nil {
-			return cid.Undef, 0, err
-		}
-	}
-	if err := ll.Finish(); err != nil {
-		return cid.Undef, 0, err
+		lb = protowire.AppendTag(lb, 3, protowire.VarintType)
+		lb = protowire.AppendVarint(lb, 7)
+		out = protowire.AppendTag(out, 2, protowire.BytesType)
+		out = protowire.AppendBytes(out, lb)
 	}
 	if dc.RawType >= 0 {
 		t := pb.Data_DataType(dc.RawType)
@@ -755,18 +753,11 @@ func buildRawDir(st *Store, dc *DirCase, targets []cid.Cid) (cid.Cid, uint64, er
 		if err != nil {
 			return cid.Undef, 0, err
 		}
-		ma.AssembleKey().AssignString("Data")
-		ma.AssembleValue().AssignBytes(db)
+		out = protowire.AppendTag(out, 1, protowire.BytesType)
+		out = protowire.AppendBytes(out, db)
 	}
-	if err := ma.Finish(); err != nil {
-		return cid.Undef, 0, err
-	}
-	var buf bytes.Buffer
-	if err := dagpb.Encode(nb.Build(), &buf); err != nil {
-		return cid.Undef, 0, err
-	}
-	mh, _ := multihash.Sum(buf.Bytes(), multihash.SHA2_256, -1)
+	mh, _ := multihash.Sum(out, multihash.SHA2_256, -1)
 	c := cid.NewCidV1(cid.DagProtobuf, mh)
-	st.Put(c, buf.Bytes())
-	return c, uint64(buf.Len()), nil
+	st.Put(c, out)
+	return c, uint64(len(out)), nil
 }
